@@ -121,11 +121,11 @@ Definition check_bin (o : binop) (l r : ty) : option (ty * option conv * option 
                 (if conv_string l r then Some (TString, None, None) else None))
   | Sub | Mul | Div => orelse (conv_basic l r) (noconv (conv_enum l r))
   | Mod => orelse (conv_intlong l r) (noconv (conv_enum l r))
-  | Lt | Gt | Lte | Gte =>
+  | OLt | OGt | OLe | OGe =>
       orelse (with_res TBool (conv_basic l r))
         (orelse (with_res TBool (noconv (conv_enum l r)))
                 (match l, r with TChar, TChar => Some (TBool, None, None) | _, _ => None end))
-  | Eq | Neq =>
+  | OEq | ONe =>
       match l, r with
       | TBool, TBool | TChar, TChar => Some (TBool, None, None)
       | _, _ =>
@@ -171,15 +171,15 @@ Definition emit_bin (o : binop) (l r res : ty) : option vmop :=
       | TLong, TLong => Some (VBin Mod TLong)
       | _, _ => None                            (* enum % int: no case *)
       end
-  | Lt | Gt | Lte | Gte =>
+  | OLt | OGt | OLe | OGe =>
       match l, r with
       | TInt, TInt | TLong, TLong | TFloat, TFloat | TDouble, TDouble | TChar, TChar =>
           Some (VBin o l)
       | _, _ => None                            (* any enum operand: no case *)
       end
-  | Eq | Neq =>
+  | OEq | ONe =>
       match l, r with
-      | TBool, TBool => Some (VBin Eq TInt)     (* DEFECT: expr_neq_emit also emits OP_EQ_INT *)
+      | TBool, TBool => Some (VBin OEq TInt)     (* DEFECT: expr_neq_emit also emits OP_EQ_INT *)
       | TInt, TInt | TLong, TLong | TFloat, TFloat | TDouble, TDouble
       | TChar, TChar | TString, TString => Some (VBin o l)
       | TEnum, TEnum => Some (VBin o TInt)
